@@ -4,6 +4,7 @@ callFunc's arity rule) for a catalogue of built-in functions, and of the express
 evalBoundAttribute / v-html / v-text. `exprEval` (expr-lang) is a parameter.
 -/
 import Vuego.Model.Stack
+import Vuego.Model.Call
 import Vuego.Generated.Leaf
 namespace Vuego
 open Go
@@ -140,6 +141,34 @@ def titleWord : Str → Str
   | [] => []
   | c :: r => upperChar c :: r.map lowerChar
 
+/-- `len` of a Go string is its length in BYTES (UTF-8) -/
+def utf8Len (s : Str) : Nat := s.foldl (fun n c => n + c.utf8Size) 0
+
+/-- `int(f)` for a float64 given by its printed form (`%v`: digits, optional fraction, optional exponent): truncation toward zero.
+    NaN, the infinities and values outside int64 give the smallest int64, as the amd64 conversion instruction does. -/
+def floatTrunc (pr : Str) : Int :=
+  let minInt : Int := -((2 : Int) ^ 63)
+  let (neg, body) := match pr with | '-' :: r => (true, r) | '+' :: r => (false, r) | r => (false, r)
+  let mant := body.takeWhile (fun c => c != 'e')
+  let expPart := (body.dropWhile (fun c => c != 'e')).drop 1
+  let ip := mant.takeWhile (fun c => c != '.')
+  let fp := (mant.dropWhile (fun c => c != '.')).drop 1
+  if ip.isEmpty || !ip.all isDigit || !fp.all isDigit then minInt
+  else
+    let e : Option Int := match expPart with
+      | [] => some 0
+      | '-' :: d => if d.isEmpty || !d.all isDigit then none else some (-(digitsToNat d : Int))
+      | '+' :: d => if d.isEmpty || !d.all isDigit then none else some (digitsToNat d : Int)
+      | d => if !d.all isDigit then none else some (digitsToNat d : Int)
+    match e with
+    | none => minInt
+    | some e =>
+      let digits : Nat := digitsToNat (ip ++ fp)
+      let shift : Int := e - fp.length
+      let mag : Nat := if shift ≥ 0 then (if shift > 40 then 10 ^ 40 * (digits + 1) else digits * 10 ^ shift.toNat) else digits / 10 ^ (-shift).toNat
+      let v : Int := if neg then -(mag : Int) else mag
+      if v < minInt || v ≥ (2 : Int) ^ 63 then minInt else v
+
 def arityErr (want got : Nat) : Res Val :=
   .err "func" ("function expects ".toList ++ natToStr want ++ " arguments, got ".toList ++ natToStr got)
 
@@ -150,7 +179,13 @@ def callBuiltin (name : Str) (args : List Val) : Option (Res Val) :=
   else if name == "lower".toList then one (fun v => match v with | .str s => .str (s.map lowerChar) | v => v)
   else if name == "title".toList then one (fun v => match v with | .str s => .str (joinWith [' '] ((fields s).map titleWord)) | v => v)
   else if name == "trim".toList then one (fun v => match v with | .str s => .str (trimSpace s) | v => v)
-  else if name == "len".toList then one (fun v => match v with | .str s => .int .int s.length | .list _ xs => .int .int xs.length | .map _ kvs => .int .int kvs.length | _ => .int .int 0)
+  else if name == "len".toList then one (fun v => match v with | .str s => .int .int (utf8Len s) | .list _ xs => .int .int xs.length | .map _ kvs => .int .int kvs.length | _ => .int .int 0)
+  else if name == "int".toList then one (fun v => match v with
+    | .int .int n => .int .int n
+    | .int .int64 n => .int .int n
+    | .float .float64 _ pr => .int .int (floatTrunc pr)
+    | .str s => (match Call.parseInt64 s with | some n => .int .int n | none => .int .int 0)
+    | _ => .int .int 0)
   else if name == "string".toList then one (fun v => .str v.sprint)
   else if name == "escape".toList then one (fun v => match v with | .str s => .str (escape s) | v => .str v.sprint)
   else if name == "default".toList then
